@@ -225,6 +225,8 @@ func Build(v V, env *Env) interface{} {
 	case "pstruct":
 		s := buildStruct(v, env)
 		return &s
+	case "nildec":
+		return (*decimal.Big)(nil)
 	case "nilptr":
 		return (*int)(nil)
 	case "nilpstruct":
@@ -270,7 +272,7 @@ func buildStruct(v V, env *Env) St {
 }
 
 // FnIDs lists the fixed host functions available to data maps.
-var FnIDs = []string{"id", "err", "sum", "cat", "nums", "strs", "ctx", "noret", "one", "three", "time", "mapf", "panic", "retint", "retf32", "niladic", "anys"}
+var FnIDs = []string{"id", "err", "sum", "cat", "nums", "strs", "ctx", "noret", "one", "three", "time", "mapf", "panic", "retint", "retf32", "niladic", "anys", "retnildec", "retnilptr"}
 
 func record(env *Env, fn string, args ...interface{}) {
 	if env != nil && env.Log != nil {
@@ -322,6 +324,10 @@ func buildFn(id string, env *Env) interface{} {
 		return func() (int, error) { record(env, id); return 7, nil }
 	case "retf32":
 		return func() (float32, error) { record(env, id); return 1.5, nil }
+	case "retnildec":
+		return func(x interface{}) (*decimal.Big, error) { record(env, id, x); return nil, nil }
+	case "retnilptr":
+		return func() (*St, error) { record(env, id); return nil, nil }
 	case "niladic":
 		return func() (interface{}, error) { record(env, id); return nil, nil }
 	case "anys":
@@ -371,6 +377,9 @@ func RandScalar(r *rand.Rand) V {
 	case 11:
 		return Time(int64(r.Intn(4e9))-1e9, int64(r.Intn(1e9)), zones[r.Intn(len(zones))])
 	case 12:
+		if r.Intn(2) == 0 {
+			return V{K: "nildec"}
+		}
 		return V{K: "nilptr"}
 	case 13:
 		return V{K: "nilpstruct"}
